@@ -1288,7 +1288,18 @@ fn st_bits(s: &St) -> Vec<u64> {
 
 pub fn oracle_bounds(sp: &Sp, real: &RealSp, s: &St, out: &mut Vec<Finding>) {
     let Some(R::Ok(e1)) = op_enforce(real, s) else { return };
+    let huge_quat = {
+        fn hq(s: &St) -> bool {
+            match s {
+                St::So3(q) => q.iter().any(|x| x.abs() > 1e150),
+                St::C(l) => l.iter().any(hq),
+                _ => false,
+            }
+        }
+        hq(s)
+    };
     let kind = match sp {
+        _ if huge_quat => "huge_quaternion",
         Sp::Rv { .. } => "rv",
         Sp::So2 { bounds: Some((lo, hi)), .. } if hi.min(PI) >= PI && lo.max(-PI) > -PI => "so2_upper_pi",
         Sp::So2 { .. } => "so2",
